@@ -103,6 +103,7 @@ type Unit struct {
 	genPanics bool
 	isInit bool
 	errs  []string
+	seenAsserts map[string]bool
 }
 
 type Obligation struct {
@@ -149,7 +150,15 @@ func (u *Unit) assume(pc Term, fact Term) {
 	if f.S == "true" {
 		return
 	}
-	u.cmds = append(u.cmds, fmt.Sprintf("(assert %s)", f.S))
+	c := fmt.Sprintf("(assert %s)", f.S)
+	if u.seenAsserts == nil {
+		u.seenAsserts = map[string]bool{}
+	}
+	if u.seenAsserts[c] {
+		return // already part of the context (every obligation sees all earlier commands)
+	}
+	u.seenAsserts[c] = true
+	u.cmds = append(u.cmds, c)
 }
 
 func (u *Unit) comment(s string) {
